@@ -139,8 +139,8 @@ def _g(f, dom=None):
             r = f(x)
         except (ValueError, ZeroDivisionError, OverflowError):
             raise Undef()
-        if isinstance(r, mp.mpc) or not mp.isfinite(r):
-            raise Undef()
+        if isinstance(r, mp.mpc) or not mp.isfinite(r) or abs(r) > 1e30:
+            raise Undef()          # also a pole met up to rounding: csc(pi) is 1/sin(pi) = 2e42 at 40 digits
         return r
     return w
 
@@ -822,7 +822,19 @@ def oracle(case, impl):
         bad.append(('well-formed MathML yields a non-expression %s: %s' % (impl['repr'], xml(tree)),
                     {'kind': 'nonexpr'}))
         return bad
+    strict = case.get('strict', False)
+    has_nan = any(t[0] == 'notanumber' for t, _, _ in _nodes(tree))
     for p, s, b in zip(pts, specs, impl['vals']):
+        if strict and s[0] != 'v' and has_nan and isinstance(b, float) and math.isfinite(b):
+            bad.append(('value at %s=%s: an expression over <notanumber/> silently yields the finite number %r (%s): %s'
+                        % (names, [str(x) for x in p], b, impl['repr'], xml(tree)), {'kind': 'value'}))
+            break
+        if strict and s[0] == 'v' and not isinstance(s[1], tuple) and (b is None or b == 'sym'):
+            # constants as operands: the contexts of this stratum have a value in the extended reals, and the
+            # implementation's expression must have it too (not nan, not complex infinity, not an unevaluated object)
+            bad.append(('value at %s=%s: MathML 2 gives %r, the transpiled expression %s has no real value: %s'
+                        % (names, [str(x) for x in p], s[1], impl['repr'], xml(tree)), {'kind': 'value'}))
+            break
         if s[0] != 'v' or b is None:
             continue
         v = s[1]
@@ -833,7 +845,7 @@ def oracle(case, impl):
             break
         if b == 'sym':
             continue
-        if isinstance(v, float) and not math.isfinite(v):
+        if isinstance(v, float) and math.isnan(v):
             continue
         STATS['spec_points'] += 1
         if not close(v, b):
@@ -1108,6 +1120,52 @@ def gen_numbers():
 U_TAGS = tuple(UNARY)
 
 
+def gen_constants():
+    """the constants as values and as operands (strict: where the extended reals give a value, the implementation's
+    expression must have that value; an expression over <notanumber/> must not silently be a finite number)"""
+    out = []
+
+    def add(t):
+        out.append({'kind': 'constant-operand', 'tree': t, 'strict': True})
+    x, y = ci('x'), ci('y')
+    for c in ('infinity', 'notanumber', 'pi', 'exponentiale'):
+        C = lambda: E(c)
+        neg = lambda: ap('minus', E(c))
+        add(C())
+        add(neg())
+        add(ap('minus', neg()))
+        for a, b in ((x, C()), (C(), x), (x, neg()), (neg(), x), (cn('2'), C()), (C(), cn('2')), (C(), C()), (neg(), neg())):
+            for op in ('plus', 'times', 'minus', 'divide', 'max', 'min') + tuple(RELS):
+                add(ap(op, a, b))
+        add(ap('plus', x, y, C()))
+        add(ap('times', cn('2'), y, neg()))
+        for op in ('max', 'min'):
+            add(ap(op, x, y, C()))
+            add(ap(op, x, neg(), y))
+            add(ap(op, C()))
+        for op in RELS:
+            if op != 'neq':
+                add(ap(op, x, y, C()))
+                add(ap(op, neg(), x, C()))
+        for op in UNARY:
+            add(ap(op, C()))
+            add(ap(op, neg()))
+            add(ap(op, ap('plus', x, C())))
+        add(ap('log', C()))
+        add(ap('log', E('logbase', [C()]), x))
+        add(ap('log', E('logbase', [cn('2')]), C()))
+        add(ap('root', C()))
+        add(ap('root', E('degree', [cn('3')]), C()))
+        # piecewise: as a value, in a condition, decided by it
+        add(E('piecewise', [E('piece', [C(), ap('lt', x, y)]), E('otherwise', [neg()])]))
+        add(E('piecewise', [E('piece', [x, ap('lt', y, C())]), E('otherwise', [cn('7')])]))
+        add(E('piecewise', [E('piece', [x, ap('gt', y, C())]), E('otherwise', [cn('7')])]))
+        add(E('piecewise', [E('piece', [x, ap('geq', neg(), y)]), E('piece', [y, ap('leq', y, C())])]))
+        add(E('piecewise', [E('piece', [x, ap('and', ap('lt', neg(), y), ap('lt', y, C()))]), E('otherwise', [cn('7')])]))
+        add(ap('exp', ap('minus', ap('times', C(), ap('abs', x)))))
+    return out
+
+
 
 def gen_random(seed, depth_max):
     """one well-formed tree, distinct identifiers, depth 2..depth_max"""
@@ -1278,7 +1336,7 @@ def evaluate(ctx, cases, impls, use_model=True):
         if mods is not None:
             ctx.corr_cases += 1
             d = compare_model(case, impl, mods[i])
-            if d is not None and (case['kind'].startswith('random') or case['kind'] == 'special-operand') \
+            if d is not None and (case['kind'].startswith('random') or case['kind'] in ('special-operand', 'constant-operand')) \
                     and impl['cls'] == 'err' and mods[i][0] == 0 and nowhere_defined(case['tree']):
                 # SymPy may refuse, while building, a sub-expression it can prove non-real (a relation over
                 # log(-Max(1.5, x, y))); the tree has no value at any sample point, the model does no such reasoning
@@ -1297,7 +1355,7 @@ def nowhere_defined(tree):
 
 
 def exhaustive_cases():
-    return gen_tag_arity() + gen_qualifiers() + gen_numbers() + gen_special_operands()
+    return gen_tag_arity() + gen_qualifiers() + gen_numbers() + gen_special_operands() + gen_constants()
 
 
 def run(ctx):
@@ -1352,7 +1410,7 @@ def replay(ctx, case):
     if ctx.model_ok():
         m = vlib.model_run(FN, [sx(c['tree'])])[0]
         d = compare_model(c, impl, m)
-        if d and (c['kind'].startswith('random') or c['kind'] == 'special-operand') and impl['cls'] == 'err' and m[0] == 0 and nowhere_defined(c['tree']):
+        if d and (c['kind'].startswith('random') or c['kind'] in ('special-operand', 'constant-operand')) and impl['cls'] == 'err' and m[0] == 0 and nowhere_defined(c['tree']):
             d = None
         if d:
             return 'correspondence differs: %s' % d
